@@ -1699,6 +1699,42 @@ Proof using All.
     exact (qs_spec _ _ _ _ HQS Hne).
 Qed.
 
+(* the same, together with the game: the frames handed to the spectators carry the inputs held, and those are the
+   inputs the host's own game last simulated every confirmed frame with (one statement about one [gs]) *)
+Theorem host_broadcast_and_game_g : forall ops n w d kinds eps nspec p outs,
+  1 <= w -> 0 <= d -> w + d + 3 <= QLEN -> 0 < n -> Z.of_nat (length kinds) = n -> players_only kinds -> (0 < nspec)%nat ->
+  srun_in predict (session_start n w sp d kinds eps nspec) ops = Ok (p, outs) ->
+  exists g gs, exec_outs w (game0 w) outs = Some g /\ QSg sp w d p gs /\
+    all_spec_sends outs = map (fun f => (f, held_at gs f)) (zrange_from 0 (Z.to_nat (ps_next_spec p))) /\
+    0 <= ps_next_spec p /\ s_last_confirmed (ps_sync p) + 1 <= ps_next_spec p /\
+    (forall h hist low f, nth_error gs h = Some (hist, low) ->
+       0 <= f <= s_last_confirmed (ps_sync p) -> f < s_current (ps_sync p) ->
+       f < hlen hist /\ gvalL (g_hist g) f h = hval hist f).
+Proof using All.
+  intros ops n w d kinds eps nspec p outs Hw Hd Hcap Hn Hlen Hpl Hns H.
+  assert (Hsp : ps_spectators (session_start n w sp d kinds eps nspec) = repeat true nspec) by reflexivity.
+  destruct (run_timeline_broadcast_g ops _ _ (game0 w) w d (QS_start_gen sp n w d kinds eps nspec Hw Hd Hcap Hn Hlen Hpl)
+              (CI_start n w d kinds eps nspec Hw) (TI_start_g n w d kinds eps nspec))
+    as [E|(p' & outs' & gs & g & E1 & Ex & HQS & _ & (HG & HGI & _) & _ & Hss & _ & Hmono & Hall)].
+  - rewrite Hsp. destruct nspec; [lia|discriminate].
+  - rewrite Hsp. destruct nspec; [lia|reflexivity].
+  - congruence.
+  - rewrite H in E1. injection E1 as <- <-. exists g, gs. split; [exact Ex|]. split; [exact HQS|].
+    change (ps_next_spec (session_start n w sp d kinds eps nspec)) with 0 in Hall, Hmono. rewrite Z.sub_0_r in Hall.
+    split; [exact Hall|].
+    assert (Hne : ps_spectators p <> []) by (rewrite Hss, Hsp; destruct nspec; [lia|discriminate]).
+    destruct (qs_spec _ _ _ _ HQS Hne) as (S1 & S2 & _). split; [exact S1|]. split; [exact S2|].
+    intros h hist low f Eg Hf Hfc.
+    pose proof (qs_qs _ _ _ _ HQS) as HQ. pose proof (QsI_length _ _ _ _ HQ) as Hlq.
+    destruct (nth_error_some_len (s_queues (ps_sync p)) gs h (hist, low) Hlq Eg) as (q & Eq).
+    pose proof (Forall2_nth _ _ _ _ _ _ HQ Eq Eg) as Hqi. cbn [fst snd] in Hqi.
+    pose proof (qi_conf _ _ _ _ _ Hqi) as Hcf.
+    split; [lia|].
+    apply (gq_known _ _ _ _ _ (HGI h q (hist, low) Eq Eg)); [lia|cbn [fst]; lia|].
+    destruct (Z.eq_dec (q_first_incorrect q) NULL) as [En|En]; [left; exact En|right].
+    destruct (qi_p4 _ _ _ _ _ Hqi En) as (_ & (A & _) & _). lia.
+Qed.
+
 (* the invariants hold in every state a run inside the space reaches *)
 Theorem invariants_reachable_g : forall ops n w d kinds eps nspec p outs,
   1 <= w -> 0 <= d -> w + d + 3 <= QLEN -> 0 < n -> Z.of_nat (length kinds) = n -> players_only kinds ->
@@ -1954,6 +1990,7 @@ Proof. intros w p g (_ & H). exact (ji_frame _ _ _ H). Qed.
 
 Definition step_timeline := step_timeline_g false JI1 dense_CI_step advance_timeline JI1_frame.
 Definition run_timeline := run_timeline_g false JI1 dense_CI_step advance_timeline JI1_frame.
+Definition host_broadcast_and_game := host_broadcast_and_game_g false JI1 dense_CI_step advance_timeline JI1_frame dense_CI_start.
 Definition run_sends := run_sends_g false JI1 dense_CI_step advance_timeline JI1_frame.
 Definition sends_and_receipts := sends_and_receipts_g false JI1 dense_CI_step advance_timeline JI1_frame dense_CI_start.
 Definition confirmed_frames_use_held_inputs :=
